@@ -77,8 +77,8 @@ func (this *ItemSet) Action(symbol string) (act1 action.Action, conflicts []acti
 
 func (this *ItemSet) AddItem(items ...*Item) {
 	for _, i := range items {
-		if _, contain := this.imap[i.str]; !contain {
-			this.imap[i.str] = i
+		if _, contain := this.imap[i.key]; !contain {
+			this.imap[i.key] = i
 			this.Items = append(this.Items, i)
 		}
 	}
@@ -152,7 +152,7 @@ func (this *ItemSet) Closure() (c *ItemSet) {
 }
 
 func (this *ItemSet) Contain(item *Item) bool {
-	if _, contain := this.imap[item.str]; contain {
+	if _, contain := this.imap[item.key]; contain {
 		return true
 	}
 	return false
